@@ -29,7 +29,7 @@ LEVEL_NOTE = "Trusts ref_header.py / ref_sgml.py. Files are built from bytes the
 DESIGN_REF = "DESIGN.md §3 C05"
 EXHAUSTIVE = {"thorough": "full v1 layout product (5 separators x 3 colon-blank x 4 leading-blank x 6 gaps x compression x 9 encoding pairs) and v2 product (2x2 quotes x 3x3 breaks x 7 versions)"}
 MIN_COUNTERS = {"quick": {"v1_files": 2500, "v2_files": 250, "nonascii_bodies": 800, "tree_checked": 2500},
-                "thorough": {"v1_files": 30000, "v2_files": 2000, "nonascii_bodies": 10000, "tree_checked": 20000}}
+                "thorough": {"v1_files": 35000, "v2_files": 1500, "nonascii_bodies": 10000, "tree_checked": 35000}}
 
 SEPS = {"crlf": "\r\n", "lf": "\n", "cr": "\r", "none": "", "blank": " "}
 CODECS = {"ISO-8859-1": "latin_1", "1252": "cp1252", "NONE": "utf_8"}
@@ -175,7 +175,7 @@ def run_shard(ctx):
         if li % ctx.nshards != ctx.shard:
             continue
         sep = SEPS[sepn]
-        for enc, cs in (ENC_PAIRS if thorough else rng.sample(ENC_PAIRS, 5)):
+        for enc, cs in (ENC_PAIRS * 6 if thorough else rng.sample(ENC_PAIRS, 5)):
             codec = CODECS[cs]
             ascii_only = not nonascii_allowed(enc, cs) or rng.random() < 0.15
             tree, body = body_for(rng, codec, ascii_only)
@@ -197,7 +197,7 @@ def run_shard(ctx):
     # v2
     brs = ["", "\n", "\r\n"]
     v2l = list(itertools.product(['"', "'"], ['"', "'"], brs, brs, [200, 201, 202, 203, 210, 211, 220]))
-    reps = 1 if not thorough else 3
+    reps = 1 if not thorough else 12
     for li, (q1, q2, b1, b2, ver) in enumerate(v2l):
         if li % ctx.nshards != ctx.shard:
             continue
